@@ -270,6 +270,15 @@ pub fn bases(seed: u64) -> Vec<Base> {
 
 fn witness(c: &Case, bases: &[Base]) -> Value { json!({"base": bases[c.base].name, "cfg": c.cfg.name(), "steps": c.steps.iter().map(|s| format!("{:?}", s)).collect::<Vec<_>>() }) }
 
+/// Re-run a stored witness (choice tape; the base files are regenerated from the seed) against the current tree.
+pub fn replay(prefix: &str, tape: &[u32], params: &Value) -> Option<Option<(String, String)>> {
+    if prefix != "history" { return None; }
+    let bs = bases(params["bases_seed"].as_u64()?);
+    let mut s = Src::replay(tape);
+    let c = gen_case(&mut s, &bs);
+    Some(oracle(&c, &bs))
+}
+
 pub fn run(run: &Run) {
     run.rule("histories (<= 14 steps + optional continuation on the reloaded document) over {create v, update r v, promise, fulfil p v, read r (resolve and get), save, failing save (an unserialisable in-file stream value, then replace the offender and save again)} on base files: example.pdf (classic), xelatex/pdf-sample/libreoffice (xref stream + compressed objects), offset.pdf and a generated file with junk before the header, generated rich documents in 3 layouts, generated multi-section histories; update targets: direct, compressed, created and promised objects, and (generated multi-section bases) numbers that designate no object — free with a generation below 65535 or without an entry; values uniquely tagged dictionaries, integers, names, strings, arrays, streams; cached and uncached. Oracle: sequential model ref -> last value + snapshot of the base from a separate uncached load: read-your-writes before save, previous revision is a byte prefix, strict and tolerant reload resolves every model entry under the very reference and every untouched object to the snapshot, open document still right after save. distinct_nontrivial = distinct (base, history) with at least one save");
     run.assume("update is only applied to in-use, created or promised objects (updating a free or undefined number is outside the statement)");
@@ -288,7 +297,7 @@ pub fn run(run: &Run) {
                 for st in &c.steps { if let Step::Update(ti, _) = st { if *ti >= lo && *ti < hi { run.count("op:update-of-unused-number"); } } }
             }
             if i < 4 { run.sample(witness(c, &bs)); }
-        });
+        }, json!({"bases_seed": run.seed}));
     });
     // thorough: the same quick workload once more under the AddressSanitizer build (memory errors in the library or its dependencies)
     if !run.quick() { crate::lanes::asan_rerun(run); }
